@@ -89,30 +89,27 @@ def handle (line : String) : String :=
     match parseEC ec with
     | some ec => "ok " ++ tohex (Escape.escape (v27 == "1") ec (unhex hx.toList))
     | none => "bad-ec"
-  | ["FAC", ver, lvl, dlvl, ec, dt, hx] =>
+  | ["FAC", ver, lvl, _dlvl, ec, dt, hx] =>
     match tablesFor ver, parseEC ec with
     | some T, some ec =>
-      let d : Defaults := { Defaults.std with strict := dlvl == "S" }
-      showR ((Datatypes.factory T.base d dt (unhex hx.toList) (lvl == "S")).map (Datatypes.encLeaf ec))
+      showR ((Datatypes.factory T.base dt (unhex hx.toList) (lvl == "S")).map (Datatypes.encLeaf ec))
     | _, _ => "bad-args"
-  | ["COMP", ver, lvl, dlvl, ec, name, dt, hx] =>
+  | ["COMP", ver, lvl, _dlvl, ec, name, dt, hx] =>
     match tablesFor ver, parseEC ec with
     | some T, some ec =>
-      let d : Defaults := { Defaults.std with strict := dlvl == "S" }
-      showR ((Pe.component T d (unhex hx.toList) (optS name) (optS dt) ec (lvl == "S") none).map (Pe.encComponent T ec))
+      showR ((Pe.component T (unhex hx.toList) (optS name) (optS dt) ec (lvl == "S") none).map (Pe.encComponent T ec))
     | _, _ => "bad-args"
-  | ["FLD", ver, lvl, dlvl, ec, name, hx] =>
+  | ["FLD", ver, lvl, _dlvl, ec, name, hx] =>
     match tablesFor ver, parseEC ec with
     | some T, some ec =>
-      let d : Defaults := { Defaults.std with strict := dlvl == "S" }
-      showR (do let f ← Pe.field T d (unhex hx.toList) (optS name) ec (lvl == "S") none false; Pe.encField T ec f)
+      showR (do let f ← Pe.field T (unhex hx.toList) (optS name) ec (lvl == "S") none false; Pe.encField T ec f)
     | _, _ => "bad-args"
   | ["SETF", ver, lvl, ec, seg, name, hx] =>
     match tablesFor ver, parseEC ec with
     | some T, some ec =>
       showR (do
         let sg ← Pe.segmentNew T seg
-        let sg ← Pe.segSetStr T Defaults.std sg name (unhex hx.toList) ec (lvl == "S")
+        let sg ← Pe.segSetStr T sg name (unhex hx.toList) ec (lvl == "S")
         Pe.encSegment T ec sg)
     | _, _ => "bad-args"
   | ["RESF", ver, seg, hx] =>
@@ -130,11 +127,10 @@ def handle (line : String) : String :=
       | .ok (n, some k) => "ok " ++ n ++ "/" ++ k
       | .error e => "exc " ++ e.show
     | none => "bad-args"
-  | ["SEG", ver, lvl, dlvl, ec, hx] =>
+  | ["SEG", ver, lvl, _dlvl, ec, hx] =>
     match tablesFor ver, parseEC ec with
     | some T, some ec =>
-      let d : Defaults := { Defaults.std with strict := dlvl == "S" }
-      showR (do let sg ← Pe.segment T d (unhex hx.toList) ec (lvl == "S"); Pe.encSegment T ec sg)
+      showR (do let sg ← Pe.segment T (unhex hx.toList) ec (lvl == "S"); Pe.encSegment T ec sg)
     | _, _ => "bad-args"
   | ["MSG", lvl, dlvl, dver, fg, hx] =>
     let d : Defaults := { Defaults.std with strict := dlvl == "S", version := dver }
